@@ -171,6 +171,7 @@ type Engine struct {
 	SlicedOut int
 	in       *interpreter
 	lin      *linSys
+	noWitness bool
 }
 
 func newEngine(x *Explorer) (*Engine, error) {
@@ -190,6 +191,7 @@ func (e *Engine) resetPath(prefix []dec) {
 	e.pcSet = map[int]bool{}
 	e.dom = map[int]*bitset256{}
 	e.uf = map[int]int{}
+	e.noWitness = false
 	e.lin = nil
 	e.pcRep = e.pcRep[:0]
 	e.entangled = map[int]bool{}
